@@ -118,7 +118,8 @@ def vet(src, checks, keep=None, baseline=True, tier='quick', runs=None, seed=Non
             shutil.copy(os.path.join(src, 'patch.diff'), os.path.join(dst, 'patch.diff'))
             shutil.copy(os.path.join(src, 'demo.py'), os.path.join(dst, 'demo.py'))
             m = {'id': keep, 'property': prop, 'summary': meta.get('summary'), 'needs': meta.get('needs'), 'files': meta.get('files'),
-                 'origin': 'independent sub-agent given only the property text and a scratch worktree (%s)' % meta.get('id'),
+                 'origin': meta.get('origin') or 'independent sub-agent given only the property text and a scratch worktree (%s)' % meta.get('id'),
+                 'blind_spot': meta.get('blind_spot'),
                  'author_ran': meta.get('ran'),
                  'vetted': {'base_commit': sh(['git', '-C', '/repo', 'rev-parse', '--short', 'HEAD']).stdout.strip(),
                             'baseline_on_mutant': rep['steps'].get('baseline'), 'demo_exit_mutant': d1.returncode, 'demo_exit_clean': d0.returncode},
